@@ -73,7 +73,7 @@ type PathResult struct {
 	Witness     *Witness
 	Funcs       map[*ssa.Function]bool
 	Inconclusive []string
-	QFeas, QAssert, QSat, QUnsat, QUnknown, CacheHits, SynHits, OneShot int
+	QFeas, QAssert, QSat, QUnsat, QUnknown, CacheHits, SynHits, OneShot, AltSolver int
 	Stubs       map[string]bool
 }
 
@@ -397,11 +397,30 @@ func (p *Path) script(c *Term) (string, map[*Term]bool, map[string]bool) {
 }
 
 func (p *Path) oneShot(c *Term, timeoutMs int) (string, *Model) {
-	aux := p.eng.auxSolver(p.sol)
+	txt, seen, decl := p.script(c)
+	// stage A: primary solver, short cap; stage B: the other family (z3 bit-blasting <-> cvc5 solving
+	// bit-vectors as integers), which decides multiply/divide-by-constant kernels the first cannot;
+	// stage C: primary solver, full timeout
+	first := timeoutMs
+	if first > 8000 {
+		first = 8000
+	}
+	r, m := p.oneShotOn(p.eng.auxSolver(p.sol, false), txt, seen, decl, first)
+	if r != "unknown" || timeoutMs <= first {
+		return r, m
+	}
+	p.res.AltSolver++
+	r, m = p.oneShotOn(p.eng.auxSolver(p.sol, true), txt, seen, decl, timeoutMs)
+	if r != "unknown" {
+		return r, m
+	}
+	return p.oneShotOn(p.eng.auxSolver(p.sol, false), txt, seen, decl, timeoutMs)
+}
+
+func (p *Path) oneShotOn(aux *Solver, txt string, seen map[*Term]bool, decl map[string]bool, timeoutMs int) (string, *Model) {
 	if aux == nil {
 		return "unknown", nil
 	}
-	txt, seen, decl := p.script(c)
 	aux.Reset()
 	aux.SetTimeout(timeoutMs)
 	aux.Send(txt)
@@ -609,7 +628,7 @@ func (p *Path) assume(c *Term) {
 	p.assertPC(c)
 }
 
-func (p *Path) violation(kind, label, msg, site string, cond *Term) {
+func (p *Path) violation(kind, label, msg, site string, cond *Term) bool {
 	// cond: the negated assertion (what must hold for the violation); nil = unconditional
 	var m *Model
 	if cond != nil {
@@ -626,13 +645,14 @@ func (p *Path) violation(kind, label, msg, site string, cond *Term) {
 			// "unknown"): decide it now with the long timeout; an infeasible path is not a violation
 			r, mm := p.oneShot(p.tt.True(), p.eng.cfg.AssertTimeoutMs)
 			if r == "unsat" {
-				panic(pathEnd{endAssumeFalse, "infeasible path (late)"})
+				return false
 			}
 			m = mm
 		}
 	}
 	v := &Violation{Label: label, Kind: kind, Msg: msg, Site: site, Model: m, Decisions: string(p.dec)}
 	p.res.Violations = append(p.res.Violations, v)
+	return true
 }
 
 func (p *Path) doAssert(label string, c *Term, site string) {
@@ -663,7 +683,9 @@ func (p *Path) doAssert(label string, c *Term, site string) {
 	r := p.query(neg, true)
 	switch r {
 	case "sat":
-		p.violation("assert", label, "", site, neg)
+		if !p.violation("assert", label, "", site, neg) {
+			panic(pathEnd{endAssumeFalse, "infeasible path (late)"})
+		}
 		panic(pathEnd{endViolation, label})
 	case "unsat":
 		p.res.Asserts[label]++
@@ -691,9 +713,12 @@ func (p *Path) run(entry *ssa.Function) (res *PathResult) {
 					res.End = endAborted
 					res.Msg = "replay desync: panic during prefix replay: " + x.msg
 				} else {
-					p.violation("panic", "panic", x.msg, x.site, nil)
-					res.End = endViolation
-					res.Msg = "panic: " + x.msg
+					if p.violation("panic", "panic", x.msg, x.site, nil) {
+						res.End = endViolation
+						res.Msg = "panic: " + x.msg
+					} else {
+						res.End = endAssumeFalse
+					}
 				}
 			case engineBug:
 				res.End = endAborted
